@@ -11,6 +11,12 @@ N3  a single-operator comparison with a constant-like left operand and a non-con
     round (`0 == len(x)` -> `len(x) == 0`, `1 > n` -> `n < 1`, `EdgeType.DERIVES == t` -> `t == EdgeType.DERIVES`).
     Constant-like: literals, negated literals, ALL_CAPS names, attribute chains rooted in a CapitalisedName.
 N4  `pass` statements are dropped from bodies that have other statements.
+N6  canonical argument style for calls of the package's own functions: when the callee name is defined exactly once
+    in the package (and is not the name of a common library method), arguments of parameters *without* default
+    are written positionally and arguments of parameters *with* default as keywords, whatever the call site used
+    (`iter_out_edges(graph, node=n, edge_type=T)` and `iter_out_edges(graph, n, T)` become
+    `iter_out_edges(graph, n, edge_type=T)`).  Calls with */** arguments or arguments that do not fit the
+    signature are left alone.
 N5  alpha-renaming of locals towards the names of the committed reference (`tables/ref_locals.json`): the
     statements of a function are aligned with the reference statements of the same function by their skeleton
     (structure with local names blanked); for aligned statements the local names are paired positionally; the
@@ -369,8 +375,99 @@ def reference():
     return _REF
 
 
-def normalize_module(tree, module_name, renamed=None):
+_LIB_NAMES = set(dir(dict)) | set(dir(list)) | set(dir(set)) | set(dir(str)) | set(dir(tuple)) | _BUILTINS | {
+    'add', 'all', 'any', 'append', 'array', 'astype', 'choice', 'copy', 'cumsum', 'deepcopy', 'dump', 'dumps', 'edges',
+    'fill', 'flatten', 'get', 'in_edges', 'isin', 'items', 'join', 'keys', 'load', 'loads', 'max', 'mean', 'min',
+    'nodes', 'ones', 'out_edges', 'predecessors', 'prod', 'product', 'randint', 'random', 'remove_node', 'reshape',
+    'shape', 'sort', 'sorted', 'successors', 'sum', 'tolist', 'unique', 'values', 'where', 'zeros', 'run', 'submit',
+    'result', 'encode', 'decode', 'validate', 'initialize', 'evaluate', 'resolve', 'render', 'export', 'name', 'info',
+    'debug', 'warning', 'error', 'exists', 'write', 'read', 'open', 'close', 'step', 'reset', 'next', 'prev'}
+
+
+def build_signature_index(trees):
+    """callee name -> (required parameter names, optional parameter names, is_method) for names defined exactly
+    once in the package."""
+    defs = {}
+    for t in trees:
+        for n in ast.walk(t):
+            if isinstance(n, (ast.FunctionDef, ast.AsyncFunctionDef)):
+                defs.setdefault(n.name, []).append(n)
+    # is the def a method (directly in a class body)?
+    methods = set()
+    for t in trees:
+        for c in ast.walk(t):
+            if isinstance(c, ast.ClassDef):
+                for st in c.body:
+                    if isinstance(st, (ast.FunctionDef, ast.AsyncFunctionDef)):
+                        methods.add(id(st))
+    out = {}
+    for name, ds in defs.items():
+        if len(ds) != 1 or name in _LIB_NAMES or (name.startswith('__') and name.endswith('__')):
+            continue
+        d = ds[0]
+        a = d.args
+        if a.vararg or a.posonlyargs:
+            continue
+        decos = {ast.unparse(x).split('(')[0].split('.')[-1] for x in d.decorator_list}
+        if decos - {'staticmethod', 'classmethod', 'cached_function', 'catch_memory_overflow'}:
+            continue        # property-like or wrapping decorators change the calling convention
+        params = [x.arg for x in a.args]
+        is_method = id(d) in methods and 'staticmethod' not in decos
+        if is_method:
+            if not params:
+                continue
+            params = params[1:]
+        n_req = len(params) - len(a.defaults)
+        if n_req < 0:
+            continue
+        out[name] = (params[:n_req], params[n_req:], is_method, [x.arg for x in a.kwonlyargs], a.kwarg is not None)
+    return out
+
+
+class _CallStyle(ast.NodeTransformer):
+    def __init__(self, sigs):
+        self.sigs = sigs
+
+    def visit_Call(self, node):
+        self.generic_visit(node)
+        f = node.func
+        name = f.attr if isinstance(f, ast.Attribute) else (f.id if isinstance(f, ast.Name) else None)
+        sig = self.sigs.get(name)
+        if sig is None:
+            return node
+        req, opt, is_method, kwonly, has_kwarg = sig
+        extras = []
+        if is_method and not isinstance(f, ast.Attribute):
+            return node             # a method called unbound (explicit self): leave it
+        if any(isinstance(x, ast.Starred) for x in node.args) or any(k.arg is None for k in node.keywords):
+            return node
+        params = req + opt
+        if len(node.args) > len(params):
+            return node
+        bound = {}
+        for p_, v in zip(params, node.args):
+            bound[p_] = v
+        for k in node.keywords:
+            if k.arg in bound:
+                return node
+            if k.arg not in params and k.arg not in kwonly:
+                if not has_kwarg:
+                    return node     # does not fit the signature: not the callee we think it is
+                extras.append(k)
+                continue
+            bound[k.arg] = k.value
+        if any(r not in bound for r in req):
+            return node
+        node.args = [bound[r] for r in req]
+        node.keywords = [ast.keyword(arg=o, value=bound[o]) for o in opt if o in bound] + \
+            [ast.keyword(arg=o, value=bound[o]) for o in kwonly if o in bound] + extras
+        return node
+
+
+def normalize_module(tree, module_name, renamed=None, sigs=None):
     tree = normalize_expr_tree(tree)
+    if sigs:
+        tree = _CallStyle(sigs).visit(tree)
     ref = reference().get(module_name)
     if ref:
         # outermost functions first: a renaming of an outer local reaches the closures that use it
